@@ -35,6 +35,8 @@ func setup(repo, tier string) *Prog {
 	}
 	p.tier = tier
 	p.needAppendAxiom = map[string]bool{}
+	p.sortAxioms = map[string]*Sort{}
+	p.permAxioms = map[string]*Sort{}
 	vd := os.Getenv("GOVC_VERIF")
 	if vd == "" {
 		vd = "/verif"
